@@ -2,6 +2,7 @@
    format of correspondence cases, and the model replay.  No proofs here. *)
 From Coq Require Import List Arith ZArith NArith Bool.
 From Verif Require Import lib.Wire c02.Model gen.Consts_c02.
+From Verif Require c02.SpecMux.
 Import ListNotations.
 
 (* constants re-read from /repo's p2p/security/noise/rw.go on every run *)
@@ -149,7 +150,12 @@ Fixpoint first_obs_diff (i : Z) (m x : list obs) : list Z :=
   | _, _ => [ERR_MISMATCH; i; -1]
   end.
 
+(* kind 7 = a whole yamux session with tapped frames: its own layout, model (Mux.v)
+   and monitor, see SpecMux.v *)
+Definition is_mux_case (l : list Z) : bool := match l with k :: _ => k =? 7 | [] => false end.
+
 Definition conform_case (l : list Z) : list Z :=
+  if is_mux_case l then SpecMux.conform7 l else
   match decode_case l with
   | None => [ERR_MALFORMED; 0]
   | Some c =>
@@ -159,6 +165,7 @@ Definition conform_case (l : list Z) : list Z :=
   end.
 
 Definition monitor_case (l : list Z) : list Z :=
+  if is_mux_case l then SpecMux.monitor7 l else
   match decode_case l with
   | None => [ERR_MALFORMED; 0]
   | Some c =>
